@@ -198,7 +198,9 @@ func ZZC16Names(script, pool string) {
 	usedBeforeOnly := map[string]bool{}
 	for _, u := range w.uses {
 		fd, declared := firstDecl[u.v.Name]
-		bound := declared && (u.declIdx == -1 || fd <= u.declIdx)
+		// an origin is evaluated before its variable is bound: a use inside the origin of
+		// declaration i sees declarations 0..i-1 only
+		bound := declared && (u.declIdx == -1 || fd < u.declIdx)
 		if !bound {
 			want = append(want, exp{"unbound", u.v.Name, u.v.Range})
 			if declared {
